@@ -54,6 +54,9 @@ CfgJson(c) == [kind |-> "sync", cap |-> c.cap, ttl |-> c.ttl, tti |-> c.tti,
 \* which the model states for quiescent points only
 Expected(e) == [e EXCEPT !.snap = [f \in DOMAIN e.snap \ {"lk", "lv"} |-> e.snap[f]]]
 
+\* C15 on Layer I: contains_key and iter leave every variable unchanged
+Pure(o, st, st2) == o.op \in {"Contains", "Iter"} => Canon(st2) = Canon([st EXCEPT !.aged = FALSE])
+
 Init == /\ \E c \in Cfgs : s = SInit(c) /\ hs = M!HInit(c)
         /\ bad = {}
         /\ h = <<>>
@@ -63,8 +66,9 @@ Next == \E o \in Ops(s) :
               e == SEventOf(r)
               pre == SSnap(s)
           IN /\ s' = Canon(r.s)
-             /\ bad' = {p \in CheckProps : ~M!AllowedBy(p, hs, pre, e)}
-             /\ hs' = IF CheckProps = {} THEN hs ELSE M!HUpdate(CheckProps, hs, pre, e)
+             /\ bad' = {p \in CheckProps \ {"C15"} : ~M!AllowedBy(p, hs, pre, e)}
+                       \cup (IF "C15" \in CheckProps /\ ~Pure(o, s, r.s) THEN {"C15"} ELSE {})
+             /\ hs' = IF CheckProps \ {"C15"} = {} THEN hs ELSE M!HUpdate(CheckProps \ {"C15"}, hs, pre, e)
              /\ h' = IF Emit \/ MaxDepth > 0 THEN Append(h, OpJson(o)) ELSE h
              /\ (Emit => PrintT(<<"EDGE", ToJson([cfg |-> CfgJson(s.cfg), ops |-> h', last |-> Expected(e)])>>))
 
